@@ -81,9 +81,13 @@ def task_verify(args):
     t0 = time.time()
     out = dict(function=qualname, arity=arity, obligations=[], error=None, paths=0, incomplete=[], raised=0, used_contracts=[])
     try:
-        fi = repo.functions[qualname]
+        fi = repo.functions[qualname.split("#")[0]]
         out.update(fi.describe())
-        v = Verifier(repo, Prover(timeout_ms=timeout_ms), reg, fi)
+        out["function"] = qualname
+        if arity is None and reg.contracts[qualname].unroll_only:
+            out["error"] = "unroll-only contract"
+            return out
+        v = Verifier(repo, Prover(timeout_ms=timeout_ms), reg, fi, key=qualname)
         try:
             v.verify(arity)
         except VerifError as e:
@@ -106,7 +110,7 @@ def task_replay(args):
     from nucsvc import cex
 
     repo, reg = _ctx()
-    fi = repo.functions[qualname]
+    fi = repo.functions[qualname.split("#")[0]]
     try:
         return cex.replay(repo, reg, fi, reg.contracts[qualname], inputs, repo.root)
     except Exception as e:
